@@ -526,6 +526,90 @@ def apply_oracle(rng, n_cases, res, problems):
                                  f"{rhs.ravel().tolist()}", {**case, "what": "apply-mean-change"}))
 
 
+# ------------------------------------------------------------------ round 4: ties of the new model definitions
+def inferred_dates_corr(rng, tier, res):
+    """tier B of Model/InferredDates.lean (driver DrvInferredDates): the (year, day of year, month) arrays the model infers for a
+    series of length n against `year / day_of_year / month` of the real `create_array_of_consecutive_dates(n)`; single far-away
+    steps for the century rules (2000 leap, 2100 not)."""
+    from ibicus.utils import create_array_of_consecutive_dates, day_of_year, month, year
+
+    ns = [0, 1, 2, 59, 60, 61, 365, 366, 730, 731, 1096, 1461, 1462] + [rng.randint(365, 2300) for _ in range(4 if tier == "quick" else 20)]
+    ks = [18320, 18321, 18322, 18627, 54786, 54787, 54845, 54846, 55151, 55152] + [rng.randint(0, 90000) for _ in range(6 if tier == "quick" else 60)]
+    lines = [f"infer {n}" for n in ns] + [f"at {k}" for k in ks]
+    try:
+        out = C.run_driver("DrvInferredDates", lines)
+    except Exception as ex:  # noqa: BLE001
+        return [{"op": "driver", "detail": f"{type(ex).__name__}: {str(ex)[:300]}"}]
+    mism = []
+    with warnings.catch_warnings():
+        warnings.simplefilter("ignore")
+        for n, got in zip(ns, out[:len(ns)]):
+            d = create_array_of_consecutive_dates(n)
+            exp = f"{C.ilist(year(d)) if n else '-'} {C.ilist(day_of_year(d)) if n else '-'} {C.ilist(month(d)) if n else '-'}"
+            res.cov["traces_validated_against_impl"] += 1
+            res.count(("inferred-dates", n), True)
+            if exp != got:
+                mism.append({"op": "infer", "n": n, "impl": exp[:200], "model": got[:200]})
+        far = create_array_of_consecutive_dates(max(ks) + 1)
+        yy, dd, mo = year(far), day_of_year(far), month(far)
+        for k, got in zip(ks, out[len(ns):]):
+            exp = f"{int(yy[k])} {int(dd[k])} {int(mo[k])}"
+            res.cov["traces_validated_against_impl"] += 1
+            res.count(("inferred-date-at", k // 3650), True)
+            if exp != got:
+                mism.append({"op": "at", "k": k, "impl": exp, "model": got})
+    return mism
+
+
+def isimip_order_corr(rng, n_cases, tier, res):
+    """tier B for the storage-order theorems: the real `_apply_on_window` / `step3` … `step7` against DrvIsimip on windows whose dated
+    values are stored in NON-chronological order (each series permuted together with its years), with a within-period trend so that
+    the regression is significant in a good part of the cases.  Uses the case builder and comparison of harness/isimip_corr.py."""
+    import collections
+
+    names = ["tas_detr", "tas_nosigtest", "tas_npqm", "tas_ks"]
+    debs = {n: IC.make_debiaser(n) for n in names}
+    exps = []
+    for k in range(n_cases):
+        name = names[k % len(names)]
+        series, ys = IC.gen_case(rng, IC.CONFIGS[name], tier)
+        series = [np.array(x, dtype=float) for x in series]
+        ys = [np.array(y) for y in ys]
+        for i in range(3):
+            if rng.random() < 0.8:  # a within-period trend (dyadic: whole quarters per year)
+                series[i] = series[i] + rng.choice([-64, -16, 8, 32]) / 4.0 * (ys[i] - ys[i].min())
+            perm = list(range(series[i].size))
+            kind = rng.choice(["shuffled", "descending", "blocks-swapped"])
+            if kind == "shuffled":
+                rng.shuffle(perm)
+            elif kind == "descending":
+                perm = perm[::-1]
+            else:
+                cut = rng.randint(0, len(perm))
+                perm = perm[cut:] + perm[:cut]
+            series[i], ys[i] = series[i][perm], ys[i][perm]
+        case = {"config": name, "k": k, "sizes": [int(x.size) for x in series], "storage_order": "non-chronological"}
+        exps += IC.build_case(debs[name], name, series, ys, rng.randint(0, 2**31 - 2), case)
+    try:
+        out = C.run_driver("DrvIsimip", [e.line for e in exps])
+    except Exception as ex:  # noqa: BLE001
+        return [{"op": "driver", "detail": f"{type(ex).__name__}: {str(ex)[:300]}"}]
+    hist, mism, nsig = collections.Counter(), [], 0
+    for e, got in zip(exps, out):
+        res.cov["traces_validated_against_impl"] += 1
+        status, detail = IC.compare(e, got, hist)
+        if e.op == "step3":
+            tr = np.asarray(e.outs[3], dtype=float)
+            nsig += int(np.any(tr != 0))
+            res.count(("isimip-order-corr", e.case["config"], tuple(e.case["sizes"]), bool(np.any(tr != 0))), True)
+        if status == "tie":
+            res.extra["ties_accepted"] = res.extra.get("ties_accepted", 0) + 1
+        elif status == "mismatch":
+            mism.append({"op": e.op, "case": e.case, "detail": detail[:400]})
+    res.extra["isimip_order_corr"] = {"windows": n_cases, "ops": len(exps), "windows_with_a_removed_trend": nsig}
+    return mism
+
+
 def ecdfm_beta_note(rng):
     """informational (never a verdict): ECDFM's *default* family for tas is scipy.stats.beta, fitted by numerical maximum
     likelihood; the fit of a shifted sample is the shifted fit only up to the optimiser's tolerance, so the shift passes through
@@ -561,6 +645,8 @@ def run(tier, res, force_search=False):
         "runs of the theorem); the regression slope is modelled exactly and its invariance is proved (Lemmas.C02.linSlope_shift)",
         "histogram ecdf (kernel_density): np.histogram bins are an oracle; theorem under the law 'bins shift with the data' (BinsShift)",
         "Lemmas/Lift.lean: the window loops are modelled by Model.Skeleton (validated by C07/C08 probes)",
+        "Model/InferredDates.lean tied by DrvInferredDates against create_array_of_consecutive_dates + year/day_of_year/month (every run); "
+        "Model.Grid (Debiaser.apply) tied by C05's DrvGrid; non-chronological storage order of dated windows tied by DrvIsimip on permuted windows (every run)",
     ]
     res.assumptions = [
         "exact rational arithmetic; the 'exactly c' of the property is checked on floats within 1e-8*(1+|c|+scale)",
@@ -574,13 +660,20 @@ def run(tier, res, force_search=False):
         "float-rounding discontinuities accepted and counted (exact arithmetic: the theorems): non-parametric QuantileMapping is not run with cm_future = "
         "cm_hist + c (the detrended values are the jump points of the step ecdf of cm_hist); CDFt with a discrete iecdf method: < 1 % isolated elements",
         "half of the oracle's cases run both calls on one debiaser object with the first result still held (must be a different, unchanged array)",
+        "RUNTIME-ONLY clauses (decided by the oracle on the real code, no theorem): (1) two calls on one debiaser object return distinct arrays and the "
+        "first result is not modified -- object identity / buffer reuse is numpy + Python object state; the model's window functions are pure "
+        "functions of their arguments, which is the specification the oracle ties the code to (state and purity as such: C12); (2) `apply` returns a "
+        "floating array for integer / float32 input -- dtype conversion and allocation; the model computes in Q, where integers are rationals and "
+        "nothing is truncated (the grid bookkeeping itself: Props.C02.grid_shift / grid_scale on Model.Grid, tied by C05); (3) the accepted float-rounding "
+        "discontinuities above; (4) explicit calendar dates -> (year, day of year, month) is Python's datetime (the inferred ones are modelled: Model.InferredDates)",
     ]
     lean_ok = C.lean_phase(res, PROP, GEN, TARGETS)
     if tier != "quick" and lean_ok:  # thorough: re-check the compiled declarations with the external kernel
         import fcntl
 
         mods = ["IbicusModel.Props.C02", "IbicusModel.Lemmas.C02Mean", "IbicusModel.Lemmas.C02Shift", "IbicusModel.Lemmas.C02Isimip",
-                "IbicusModel.Lemmas.C02Lift", "IbicusModel.Lemmas.StatsAffine"]
+                "IbicusModel.Lemmas.C02Lift", "IbicusModel.Lemmas.C02Grid", "IbicusModel.Lemmas.C02Order", "IbicusModel.Lemmas.C02Dates",
+                "IbicusModel.Lemmas.C02Pos", "IbicusModel.Model.InferredDates", "IbicusModel.Lemmas.StatsAffine"]
         with open(C.LOCK, "w") as lk:
             fcntl.flock(lk, fcntl.LOCK_SH)
             rc, log = C._run(["lake", "env", "leanchecker"] + mods)
@@ -597,11 +690,18 @@ def run(tier, res, force_search=False):
     mi = IC.correspondence(rng, 28 if quick else 350, tier, res, configs=ISI_CONFIGS)
     if mi:
         res.tie_broken.append(f"correspondence DrvIsimip: {len(mi)} mismatches, first: {str({k: v for k, v in mi[0].items() if k != 'line'})[:600]}")
-    res.extra["mismatches"] = {"debiasers": mm[:5], "isimip": [{k: v for k, v in m.items() if k != "line"} for m in mi[:5]]}
+    md = inferred_dates_corr(rng, tier, res)
+    if md:
+        res.tie_broken.append(f"correspondence DrvInferredDates: {len(md)} mismatches, first: {str(md[0])[:400]}")
+    mo = isimip_order_corr(rng, 16 if quick else 160, tier, res)
+    if mo:
+        res.tie_broken.append(f"correspondence DrvIsimip (non-chronological storage order): {len(mo)} mismatches, first: {str(mo[0])[:600]}")
+    res.extra["mismatches"] = {"debiasers": mm[:5], "isimip": [{k: v for k, v in m.items() if k != "line"} for m in mi[:5]],
+                               "inferred_dates": md[:5], "isimip_order": mo[:5]}
 
     # ---- the property's oracle on the real code
     n_or = 52 if quick else 650
-    if force_search or not lean_ok or mm or mi:
+    if force_search or not lean_ok or mm or mi or md or mo:
         n_or *= 3
     problems = []
     oracle(rng, n_or, res, problems)
